@@ -95,6 +95,20 @@ type PortalCache interface {
 	Execute(ctx context.Context, name string, reader *buffer.Reader, writer *buffer.Writer) error
 }
 
+// StatementCloser is an optional interface which could be implemented by a
+// [StatementCache] to remove the statement bound to the given name once the
+// client closes it.
+type StatementCloser interface {
+	Close(ctx context.Context, name string) error
+}
+
+// PortalCloser is an optional interface which could be implemented by a
+// [PortalCache] to remove the portal bound to the given name once the client
+// closes it.
+type PortalCloser interface {
+	Close(ctx context.Context, name string) error
+}
+
 type CloseFn func(ctx context.Context) error
 
 // OptionFn options pattern used to define and set options for the given
